@@ -2,8 +2,10 @@ import MosnVerif.Drive.Util
 import MosnVerif.Model.FrameChk
 import MosnVerif.Model.FrameSpec
 import MosnVerif.Model.FrameH2
+import MosnVerif.Model.FrameH2Err
 import MosnVerif.Model.FrameHpack
 import MosnVerif.Model.HpackEmit
+import MosnVerif.Model.H2Lock
 /-! driver of C08 (malformed input contained): see `run` for the case kinds. Core Lean only. -/
 namespace MosnVerif.Drive.C08
 open MosnVerif.Drive MosnVerif.Model.Framing MosnVerif.Model.FrameBytes MosnVerif.Model.FrameChk MosnVerif.Model.KVBlock
@@ -63,7 +65,11 @@ def h2dec (bytes : String) (impl : List String) : String :=
   | some b, [o] =>
     let m (p g : Bool) := showStep (MosnVerif.Model.FrameH2.h2Step MosnVerif.Gen.FrameConsts.http2_defaultMaxReadFrameSize
       (fun _ => p) (fun _ => g) true b)
-    let allowed := dedup [m true true, m true false, m false true]
+    -- a failing ReadFrame consumes nothing, or (stream errors) the complete frame / header-block group
+    let errs := (MosnVerif.Model.FrameH2.errDrains MosnVerif.Gen.FrameConsts.http2_defaultMaxReadFrameSize (fun _ => true) b).map
+      (fun n => s!"error:{n}")
+    let allowed := dedup ([m true true, m true false, m false true] ++
+      (if (m true false).startsWith "error" || (m false true).startsWith "error" then errs else []))
     let agree := allowed.contains o
     let spec := match parseOutcome o with
       | some oc => specContained b.length oc
@@ -115,6 +121,60 @@ def hpackX (maxs blocks : String) (impl : List String) : String :=
   | _, _, _ => "E E bad-case"
 end hpackx
 
+section h2up
+open MosnVerif.Gen.H2Lock MosnVerif.Model.H2Lock
+
+/-- what the frames of the upstream peer mean for the in-flight request (hand-written from MClientConn.HandleFrame /
+processData / processHeaders and the framer): `some true` = complete response, `some false` = stream error / reset,
+`none` = still waiting. `sawH` = response HEADERS (without END_STREAM) seen. -/
+def upstreamVerdict (method : String) : Bool → List String → Option Bool
+  | _, [] => none
+  | sawH, t :: r =>
+    if t == "P" then upstreamVerdict method sawH r
+    else if t == "W0" then some false
+    else if t.startsWith "W" then upstreamVerdict method sawH r
+    else if t.startsWith "R" then some false
+    else if t == "Hbad" then some false
+    else if t == "H" then (if sawH then some false else upstreamVerdict method true r)
+    else if t == "He" then some true
+    else if t == "D" || t == "De" then
+      if !sawH then some false               -- DATA before the response HEADERS
+      else if method == "HEAD" then some false  -- DATA on a HEAD request
+      else if t == "De" then some true else upstreamVerdict method sawH r
+    else none
+
+/-- run goroutine 0 as far as it gets, then goroutine 1 (operations are counted generously) -/
+def runBoth (s : Sys) : Sys :=
+  let n := s.remaining + 2
+  (s.run (List.replicate n 0)).run (List.replicate n 1)
+
+/-- `h2up <method> <frames> => <r1> <r2> <same|new|none>`: the real HTTP/2 client stream connection against a raw-frame
+upstream peer. Model: the frames decide response / stream error; on a stream error the connection's read goroutine walks
+the regenerated path of clientStreamConnection.handleError (StreamError, stream registered) while the second request's
+goroutine has to get through clientStream.endStream — both against the one connection mutex.  Predicate: both requests
+terminate. -/
+def h2up (method frames : String) (impl : List String) : String :=
+  match impl with
+  | [r1, r2, same] =>
+    let spec := !(r1.startsWith "hang") && !(r2.startsWith "hang")
+    let m : String :=
+      match upstreamVerdict method false (frames.splitOn "+") with
+      | none => "waiting"
+      | some true => "resp resp same"
+      | some false =>
+        match findPath clientPaths "handleError" ["case http2.StreamError", "s != nil"],
+              clientPaths.find? (fun p => p.fn == "endStream" && p.conds.all (· == "err == nil")) with
+        | some pe, some ps =>
+          let s := runBoth (Sys.start [flatten clientAcquires pe.acts, flatten clientAcquires ps.acts])
+          let done (i : Nat) : Bool := match s.threads[i]? with
+            | some t => t.done
+            | none => false
+          s!"{if done 0 then "reset:StreamRemoteReset" else "hang"} {if done 1 then "resp" else "hang"} same"
+        | _, _ => "nopath"
+    s!"{if m == s!"{r1} {r2} {same}" then "A" else "D"} {if spec then "S" else "V"} {m}"
+  | _ => "E E bad-case"
+end h2up
+
 def run (caseToks impl : List String) : String :=
   match caseToks with
   | ["dec", proto, bytes] => dec proto bytes impl
@@ -122,6 +182,7 @@ def run (caseToks impl : List String) : String :=
   | ["h2dec", bytes] => h2dec bytes impl
   | ["hpack", mx, bytes] => hpackK mx bytes impl
   | ["hpackx", mx, blocks] => hpackX mx blocks impl
+  | ["h2up", method, frames] => h2up method frames impl
   | ["contain", _, _] =>
     -- containment run (support): the probe client must have been answered after this malformed connection
     (match impl with
